@@ -591,10 +591,11 @@ static void prop_one_level(Tape &t, Ctx &c) {
             const ptrdiff_t row0 = dom[me];
             if (dkind == 2) prm.def_vec = [&ztab, ndv, row0](ptrdiff_t i, unsigned j) { return ztab[(row0 + i) * ndv + j]; };
             else prm.def_vec = amgcl::mpi::constant_deflation(ndv);
-            std::unique_ptr<SDD> Sq; bool bad = false; std::string w;
-            try { Sq.reset(new SDD(comm, tup, prm)); } catch (const std::exception &e) { bad = true; w = e.what(); }
-            if (any_rank_failed(bad)) throw std::runtime_error(bad ? w : std::string(OTHER_RANK));
-            std::tie(iters, resid) = (*Sq)(fl, xl);
+            // no agreement step here: a rank that leaves the subdomain_deflation setup early (listed finding F-sdd-empty-subdomain)
+            // does so while the others are still inside the constructor's collectives; the MPI runtime then aborts the job
+            // (MPI_ERR_TRUNCATE), which is what the witness replay of that finding observes
+            SDD S(comm, tup, prm);
+            std::tie(iters, resid) = S(fl, xl);
         } else {
             typedef amgcl::mpi::make_solver<amgcl::mpi::block_preconditioner<amgcl::runtime::preconditioner<B>>, amgcl::runtime::mpi::solver::wrapper<B>> BP;
             boost::property_tree::ptree prm;
